@@ -185,6 +185,34 @@ def targeted(res, ctx, rng):
             res.count('ioctl_words')
 
 
+def long_calls(res, ctx, rng):
+    """A call that stays open while its thread produces n further records (scale rungs around 2^16, see histories.py):
+    the stream is processed to the end and the call's trace renders.  Histories this long are neither minimised nor
+    stored event by event; the case names the generator's parameters."""
+    inv = H.inventory()
+    rungs = [n for i, n in enumerate(ctx.pick(H.SCALE_RUNGS_QUICK, H.SCALE_RUNGS_THOROUGH)) if ctx.mine(i)]
+    for n in rungs:
+        name = rng.choice(list(H.ONE_PATH_CALLS) + ['BSC_read', 'BSC_write', 'BSC_getpid'])
+        if name in H.ONE_PATH_CALLS:
+            seq = H.path_syscall(rng, name, 1, error=0, interleave_unrelated=False)
+            seq = seq[:-1] + H.window_filler(rng, n - len(seq)) + seq[-1:]
+        else:
+            seq = H.syscall(name, (3, 0x1000, 64, 0), (0, 64, 0, 0), H.window_filler(rng, n - 2))
+        assert len(seq) == n              # the window holds exactly n records, START and END included
+        events = H.materialize(H.on_thread(3, seq))
+        n_traces, exc, stage = run_history(events)
+        res.case(('long-call', name, n))
+        res.count('events_fed', len(events))
+        res.count('traces_rendered', n_traces)
+        res.count('long_calls')
+        if exc is not None:
+            where = core.short_tb(exc, 2)
+            res.violation(f'c07-{core.exc_name(exc)}-{where[-1] if where else "?"}',
+                          f'{name} window of {n} same-thread records: {exc!r} in {stage} at {where}',
+                          {'long_call': name, 'nested_records': n})
+            return
+
+
 def run(ctx):
     res = core.Result()
     import random
@@ -195,6 +223,7 @@ def run(ctx):
         if ctx.shard == 0:
             targeted(res, ctx, rng)
         scenario_mixes(res, ctx, rng)
+        long_calls(res, ctx, rng)
     res.notes['handler_functions_entered'] = sorted(f'{f}:{n}' for f, n in cov.entered if n.startswith('handle_'))
     if ctx.shard == 0:
         seq = H.path_syscall(core.Ctx('C07', ctx.tier, ctx.seed).rng, 'BSC_rename', 1, error=2)
@@ -207,6 +236,7 @@ def run(ctx):
     res.require('events_fed', 100)
     res.require('traces_rendered', 10)
     res.require('programs_with_repeated_orphan_end', 5)
+    res.require('long_calls', 4)
     return res
 
 
@@ -222,6 +252,12 @@ def finalize(res):
 
 def replay(case, ctx):
     res = core.Result()
+    if 'long_call' in case:
+        ctx.thorough = case['nested_records'] not in H.SCALE_RUNGS_QUICK
+        for shard in range(ctx.nshards):
+            ctx.shard = shard
+            long_calls(res, ctx, ctx.rng)
+        return res
     events = [ev.ev_from_case(c) for c in case['events']]
     check(res, events, 'replay', case.get('via_file', False))
     return res
